@@ -266,7 +266,14 @@ impl<M: GuestAddressSpace> VringState<M> {
         let active = self.enabled && self.queue.ready();
         if active {
             if let Some(kick) = &self.kick {
-                kick.consume()?;
+                match kick.consume() {
+                    Ok(()) => {}
+                    // Nothing is pending on the current (non-blocking) descriptor: the wake-up
+                    // was raised on a descriptor that has been replaced since, e.g. by a stop
+                    // and restart of the vring. There is nothing to process.
+                    Err(e) if e.kind() == io::ErrorKind::WouldBlock => return Ok(false),
+                    Err(e) => return Err(e),
+                }
             }
         }
 
